@@ -5,10 +5,10 @@ id=$1; pkg=$2; demo=$3
 export GOFLAGS=-mod=mod GOPROXY=off GOSUMDB=off GOTOOLCHAIN=local
 wt=/tmp/seedv_$id
 git -C /repo worktree add -f --detach $wt HEAD -q || exit 2
-cp /tmp/seed/$id/$pkg/zz_demo_test.go $wt/$pkg/
+cp /verif/seeded/$id/$pkg/zz_demo_test.go $wt/$pkg/
 cd $wt
 echo "-- demo on original:"; go test -count=1 -run "$demo" ./$pkg/ 2>&1 | tail -1
-git apply /tmp/seed/$id/patch.diff || echo "PATCH DOES NOT APPLY"
+git apply /verif/seeded/$id/patch.diff || echo "PATCH DOES NOT APPLY"
 echo "-- build:"; go build ./... 2>&1 | tail -2
 echo "-- demo with change:"; go test -count=1 -run "$demo" ./$pkg/ 2>&1 | tail -1
 echo "-- package tests with change (demo skipped):"; go test -count=1 -skip "$demo" ./$pkg/ 2>&1 | tail -1
